@@ -444,7 +444,7 @@ func (w *Walker) evalCall(call *ast.CallExpr, st *State, nres int) []callRes {
 		}
 		w.siteExt(call, id, s, recvs[i], args[i])
 		if w.record && recvs[i] != nil && recvs[i].K == KIndex && recvs[i].Args[0].K == KField && strings.HasPrefix(id, "if:") {
-			site := w.A.siteFor(w.Fn, call, "deref", id, recvs[i].Args[0].Name)
+			site := w.recA().siteFor(w.Fn, call, "deref", id, recvs[i].Args[0].Name)
 			w.A.snap(site, s, recvs[i], args[i], nil, recvs[i].Args[1])
 		}
 		w.extEffects(id, call, recvs[i], args[i], s)
@@ -653,15 +653,25 @@ func (w *Walker) callInternal(call *ast.CallExpr, fn *FuncInfo, st *State, nres 
 		}
 		// record site
 		if w.record {
-			site := w.A.siteFor(w.Fn, call, "call", id, "")
+			site := w.recA().siteFor(w.Fn, call, "call", id, "")
 			site.Target = fn
 			site.Call = call
 			w.A.snap(site, s, recvs[i], args[i], nil, nil)
 		}
 		// pure functions: canonical terms, no effects
 		if w.A.isPure(fn) {
+			if rs, ok := w.inlineCall(fn, recvs[i], args[i], s, nres, true); ok {
+				out = append(out, rs...)
+				continue
+			}
 			out = append(out, callRes{s, w.pureResult(call, fn, recvs[i], args[i], s, nres)})
 			continue
+		}
+		if w.inlineHelpers && w.A.inlinable(fn) {
+			if rs, ok := w.inlineCall(fn, recvs[i], args[i], s, nres, false); ok {
+				out = append(out, rs...)
+				continue
+			}
 		}
 		// impure: apply summary
 		ctx := w.A.callCtx(fn, args[i], s)
@@ -832,4 +842,142 @@ func mergePhis(ps []string) []string {
 		out = append(out, strings.Join(s, " & "))
 	}
 	return out
+}
+
+// inlineCall walks the callee's body in the caller's state (parameters bound to the argument terms) and returns one
+// continuation per return path. pure=true is used for side-effect-free functions with loops or several statements
+// (so that e.g. an extracted counting loop keeps its quorum term); it gives up when the callee has too many paths.
+func (w *Walker) inlineCall(fn *FuncInfo, recv *Term, args []*Term, st *State, nres int, pure bool) ([]callRes, bool) {
+	if w.depth >= 4 || fn == w.Fn {
+		return nil, false
+	}
+	if pure {
+		// single-expression functions are handled by pureResult (cheaper); predicates by cond()
+		if len(fn.Decl.Body.List) == 1 {
+			return nil, false
+		}
+		if stmtCount(fn.Decl.Body) > 30 || w.A.noPureInline[fn] {
+			return nil, false
+		}
+	}
+	sub := &Walker{A: w.A, Fn: fn, info: fn.Pkg.TypesInfo, record: w.record && w.rec != nil, depth: w.depth + 1, inl: &inlineCtx{}, budget: 40000,
+		trackFields: w.trackFields, inlineHelpers: w.inlineHelpers, rec: w.rec}
+	b := st.clone()
+	if fn.RecvVar != nil {
+		rt := recv
+		if rt == nil {
+			rt = w.A.recvRoot(fn)
+		}
+		b.Env[fn.RecvVar] = adaptRecv(rt, fn, w.A)
+	}
+	for j, p := range fn.Params {
+		if j < len(args) {
+			b.Env[p] = args[j]
+		}
+	}
+	sig := fn.Obj.Type().(*types.Signature)
+	for i := 0; i < sig.Results().Len(); i++ {
+		if v := sig.Results().At(i); v.Name() != "" && v.Name() != "_" {
+			b.Env[v] = zeroTerm(v.Type())
+		}
+	}
+	fall := sub.stmts(fn.Decl.Body.List, []*State{b})
+	var out []callRes
+	finish := func(s *State, ts []*Term) {
+		sts := []*State{s}
+		for i := len(sub.defers) - 1; i >= 0; i-- {
+			sts = sub.stmts(sub.defers[i].Body.List, sts)
+		}
+		for _, x := range sts {
+			x.Events["fn:"+fn.Name] = true
+			x.logEv("fn:" + fn.Name)
+			if len(ts) > 0 && ts[0] != nil && ts[0].K == KConst && (ts[0].S == "true" || ts[0].S == "false") {
+				x.Events["fn:"+fn.Name+"="+ts[0].S] = true
+			}
+			for len(ts) < nres {
+				ts = append(ts, fresh("ret:"+fn.Name+":"))
+			}
+			out = append(out, callRes{x, ts})
+		}
+	}
+	for _, s := range fall {
+		finish(s, sub.namedResults(s))
+	}
+	for _, r := range sub.inl.rets {
+		if len(r.exprs) == 0 {
+			finish(r.st, sub.namedResults(r.st))
+			continue
+		}
+		cur := []struct {
+			st *State
+			ts []*Term
+		}{{r.st, nil}}
+		for _, re := range r.exprs {
+			var next []struct {
+				st *State
+				ts []*Term
+			}
+			for _, c := range cur {
+				if isBoolExpr(sub.info, re) {
+					tst, fst := sub.cond(re, c.st)
+					for _, x := range tst {
+						next = append(next, struct {
+							st *State
+							ts []*Term
+						}{x, append(append([]*Term{}, c.ts...), constTerm("true"))})
+					}
+					for _, x := range fst {
+						next = append(next, struct {
+							st *State
+							ts []*Term
+						}{x, append(append([]*Term{}, c.ts...), constTerm("false"))})
+					}
+					continue
+				}
+				for _, e := range sub.eval(re, c.st) {
+					next = append(next, struct {
+						st *State
+						ts []*Term
+					}{e.st, append(append([]*Term{}, c.ts...), e.t)})
+				}
+			}
+			cur = next
+		}
+		for _, c := range cur {
+			finish(c.st, c.ts)
+		}
+	}
+	if pure {
+		// only counting helpers are worth inlining: their results carry quorum / existence terms
+		useful := false
+		for _, o := range out {
+			for _, t := range o.ts {
+				if t != nil && (t.K == KCount || t.K == KExists) {
+					useful = true
+				}
+			}
+		}
+		if !useful || len(out) > 6 {
+			if w.A.noPureInline == nil {
+				w.A.noPureInline = map[*FuncInfo]bool{}
+			}
+			w.A.noPureInline[fn] = true
+			return nil, false
+		}
+	}
+	if len(out) == 0 {
+		return nil, false
+	}
+	return out, true
+}
+
+func stmtCount(n ast.Node) int {
+	c := 0
+	ast.Inspect(n, func(x ast.Node) bool {
+		if _, ok := x.(ast.Stmt); ok {
+			c++
+		}
+		return true
+	})
+	return c
 }
